@@ -324,6 +324,34 @@ def extract(repo):
         body = fn_body(cont, fn)
         g[fn] = flat(cont_tokens(body)) if body is not None else []
 
+    # ---- cold start of the counter, PER WRITER: a restart forgets next_seq, so the first append of each writer on a
+    #      thread runs the `None => ..` arm of its `match next_seq.get(..)`.  Certified = between that `None =>` and
+    #      the `next_seq.insert(` the writer calls load_next_seq_for (the log decides, a lagging sidecar is rebuilt)
+    #      and nothing else that could yield a seq (only error plumbing is allowed next to it).
+    def cold_start_calls(body):
+        m = re.search(r"next_seq\s*\.get\(", body)
+        if not m:
+            return None
+        n = re.search(r"\bNone\s*=>", body[m.end():])
+        if not n:
+            return None
+        start = m.end() + n.end()
+        i = re.search(r"next_seq\s*\.insert\(", body[start:])
+        if not i:
+            return None
+        span = body[start:start + i.start()]
+        calls = re.findall(r"\b([A-Za-z_]\w*)\s*\(", span)
+        plumbing = {"map_err", "to_string", "Some", "Ok", "Err", "cloned", "into", "ok_or_else"}
+        return [c for c in calls if c not in plumbing]
+    g["cold_start"] = []
+    for fn in LOCKED:
+        body = fn_body(cont, fn)
+        calls = cold_start_calls(body) if body is not None else None
+        ok = calls == ["load_next_seq_for"]
+        g["cold_start"].append((fn, ok))
+        if not ok:
+            notes.append(f"{fn}: first seq after a cold start does not come from load_next_seq_for alone: {calls}")
+
     # ---- artifact before frame: every function that calls write_compaction_summary_v1( calls
     #      append_compaction_checkpoint_created( afterwards
     callers, ok = 0, True
@@ -366,7 +394,7 @@ def main():
     L = []
     L.append("(* GENERATED by tools/gen/crash_effects.py from crates/rip-log/src/lib.rs and crates/ripd/src - do not edit.")
     L.append("   Order of file-system effects, crash points and counter updates of rip's write paths (C05, T1). *)")
-    L.append("From RipV Require Import Base.Prelude Model.Crash.")
+    L.append("From RipV Require Import Base.Prelude Model.CrashCold Model.Crash.")
     L.append("")
     L.append(f"Definition gen_log_append : list N := {coq_list(g['log_append'])}.")
     L.append(f"Definition gen_log_flush_unconditional : bool := {coq_bool(g['flush_unconditional'])}.")
@@ -393,6 +421,10 @@ def main():
     L.append(f"Definition gen_branch : list N := {coq_list(g['branch'])}.")
     L.append(f"Definition gen_handoff : list N := {coq_list(g['handoff'])}.")
     L.append(f"Definition gen_load_next : list N := {coq_list(g['load_next'])}.")
+    L.append("(* per writer (same order as gen_locked): the `None =>` arm of `match next_seq.get(..)` - the first append after a")
+    L.append("   restart - takes the seq from load_next_seq_for and from nothing else (true); false = some other source of a seq")
+    L.append("   (e.g. the sidecar's tail through try_read_last_seq) is consulted there *)")
+    L.append("Definition gen_cold_start : list bool :=\n  [" + ";\n   ".join(f"(* {fn} *) {coq_bool(ok)}" for fn, ok in g["cold_start"]) + "].")
     L.append("")
     L.append("(* which version of the code the source is *)")
     L.append("Definition gen_ver : ver :=")
@@ -435,6 +467,9 @@ def main():
     L.append("Lemma gen_crash_effects_ok : gen_crash_effects_ok_b = true.")
     L.append("Proof. vm_compute. reflexivity. Qed.")
     L.append("Lemma gen_ver_ok : ver_eqb gen_ver fixed = true.")
+    L.append("Proof. vm_compute. reflexivity. Qed.")
+    L.append("(* every one of the 11 writers numbers its first frame after a restart from the log (Model/CrashCold.v: FromLog) *)")
+    L.append("Lemma gen_cold_start_ok : (Nat.eqb (length gen_cold_start) 11 && forallb (fun b => b) gen_cold_start) = true.")
     L.append("Proof. vm_compute. reflexivity. Qed.")
     os.makedirs(a.out, exist_ok=True)
     open(os.path.join(a.out, "CrashEffects.v"), "w").write("\n".join(L) + "\n")
